@@ -63,6 +63,11 @@ CHECKS = {
                 text="For queries rich in per-event state (accumulators, first flags, vector columns, event-level Where, Range, opaque user C++), the rows attributed to each event must be identical "
                      "whether the event is processed alone, in any order, or in a different job.",
                 note="post-fault state excluded (driver starts a fresh job object after an exception, as the real job would be dead)", ref="4/C05"),
+    "C03": dict(cat="exploration", technique="booking log of the stand-in TTree (branch name, exact C++ type, address) + rows read through the bound addresses at Fill(), compared with the query's final shape and Python's value kinds; container-model run for the delivered file name",
+                text="Terminal forms (bare, tuple, list, dict, nested sequences, explicit ResultTTree with arbitrary names) x generated and bare-declared-member columns x 3 backends: branch names/order/count, "
+                     "vector nesting, element type class (exact declared type for bare members), distinct storage per branch, tree name in descriptor = tree booked and filled, descriptor file name = "
+                     "file runner.sh delivers, label-count mismatches raise.",
+                note="type expectations are classes except for bare declared members; conditional/Min/Max/** columns may be floating", ref="4/C03"),
 }
 
 PENDING_REASON = "check not built yet at this commit (work in progress, see DESIGN.md section 4)"
